@@ -197,7 +197,7 @@ func (p *simPeer) buildOpen(restartBit bool) []byte {
 		fams := p.cfg.GR.LLGRFamilies
 		for _, fn := range fams {
 			f := famByName(fn)
-			t := uint32(p.cfg.GR.LLGRTime)
+			t := uint32(p.cfg.GR.llgrTimeOf(f))
 			v = append(v, byte(f.AFI>>8), byte(f.AFI), f.SAFI, 0x80, byte(t>>16), byte(t>>8), byte(t))
 		}
 		addCap(71, v)
